@@ -2,5 +2,10 @@
 import EcModel.Drv.Eeprom
 
 namespace Ec.Drv.C13
-def handle : List String → String := Ec.Drv.Eeprom.handle
+/-- `init ...` lines belong to the monitor-only family of the harness (the REAL `MainDevice::init` against a simulated
+    device serving an adversarial EEPROM image: the only requirement is "a value or an error, never a panic or a hang",
+    which is judged on the implementation; the model has nothing to predict and answers the constant the harness prints). -/
+def handle : List String → String
+  | "init" :: _ => "n/a"
+  | args => Ec.Drv.Eeprom.handle args
 end Ec.Drv.C13
